@@ -91,4 +91,16 @@ static int lst_child(int m, const seq_t* s)
     }
     return EX_OK;
 }
+#ifndef LST_FUZZ
 int main(void) { return lst_driver_main(); }
+#else
+static void lst_fuzz_one(int m, const uint8_t* d, size_t n)
+{
+    static int pair[2] = { -1, -1 }; static int tfd = -1; static long queued;
+    if (pair[0] < 0) { if (make_pair(pair) < 0) abort(); STAILQ_INIT(&mclk_timestamps); tfd = timerfd_create(CLOCK_REALTIME, 0); }
+    mode = m ? MODE_TALKER : MODE_LISTENER;
+    if (send(pair[0], d, n, 0) < 0) abort();
+    if (m) aaf_talker_recv_pdu(pair[1], tfd); else aaf_listener_recv_pdu(pair[1]);
+    if (++queued % 64 == 0) while (!STAILQ_EMPTY(&mclk_timestamps)) { struct media_clock_entry* e = STAILQ_FIRST(&mclk_timestamps); STAILQ_REMOVE_HEAD(&mclk_timestamps, mclk_entries); free(e); }
+}
+#endif
